@@ -149,10 +149,46 @@ func TestC20Write(t *testing.T) {
 	cfg := fmt.Sprintf("writer=%s/%s", w[0], w[1])
 	rep := vlib.NewReport("C20", "E4-write:"+cfg)
 	defer rep.Write()
-	f := newFx(fxOpts{mode: w[0], impl: w[1], validateAC: true})
+	px := vlib.NewFakeProxy()
+	f := newFx(fxOpts{mode: w[0], impl: w[1], validateAC: true, proxy: px})
 	defer f.close()
 	sizes := []int{1, 4095, 4096, 4097, 1<<20 - 1, 1 << 20, 1<<20 + 1, 2<<20 + 3}
 	want := map[string][]byte{}
+	// seventh write path: the file is written when an entry is fetched from a proxy backend,
+	// with the size known (gRPC) and unknown (HTTP GET /cas/<hash>, FetchBlob)
+	for i, n := range []int{1, 4097, 1<<20 + 1} {
+		for _, how := range []string{"fetched-size-known", "fetched-size-unknown-http", "fetched-size-unknown"} {
+			d := c02Content([]string{"random", "text", "zeros"}[i], n, fmt.Sprintf("c20w/%s/%d/%s", cfg, n, how))
+			h := vlib.Sha(d)
+			st := d
+			if w[0] == "zstd" {
+				st = vlib.EncodeCasBlob(d, 1<<20, true)
+			}
+			px.Set(cache.CAS, h, st, int64(n))
+			var got []byte
+			switch how {
+			case "fetched-size-known":
+				rc, _, _ := f.cache.Get(context.Background(), cache.CAS, h, int64(n), 0)
+				if rc != nil {
+					got = readAllClose(rc)
+				}
+			case "fetched-size-unknown":
+				rc, _, _ := f.cache.Get(context.Background(), cache.CAS, h, -1, 0)
+				if rc != nil {
+					got = readAllClose(rc)
+				}
+			default:
+				rec := httptest.NewRecorder()
+				f.mux.ServeHTTP(rec, httptest.NewRequest(http.MethodGet, "/cas/"+h, nil))
+				got = rec.Body.Bytes()
+			}
+			if !bytes.Equal(got, d) {
+				rep.BrokenHarness("backend fetch (%s, %d bytes) did not deliver the blob", how, n)
+				continue
+			}
+			want[h] = d
+		}
+	}
 	for i, n := range sizes {
 		for _, k := range []string{"random", "text", "zeros"} {
 			if n == 1 && k != "random" {
